@@ -1,6 +1,7 @@
 import GopatchModel.Spec.Sound
 import GopatchModel.Spec.Traverse
 import GopatchModel.Spec.Complete
+import GopatchModel.Spec.RefFile
 namespace Gopatch.C01
 open Gopatch
 
@@ -60,6 +61,69 @@ theorem ground_instance_is_site (c : Change) (d : Data) (id : Nat) (fs : List V)
   refine ⟨d', matching_node_is_site c d d' id fs n hn ?_⟩
   have hk' : (c.minus.kind == "stmts") = false := by simpa using hk
   simp [nodeMatch, hk', hm]
+
+/-! ### the converse with metavariables: the reference matcher and what the engine misses -/
+
+/-- The reference matcher (every choice of runs for every elision, everywhere in the pattern) accepts
+only instances … -/
+theorem reference_only_instances (mt : Meta) (p g : V) (d d' : Data) (h : d' ∈ allV mt p g d) :
+    Inst mt d'.mv p g :=
+  (allV_sound mt p g d d' h).2 d'.mv (fun _ _ hc => hc)
+
+/-- … and every instance: if the code is an instance under a substitution of well-typed code for the
+metavariables (for any schema `sc` of the syntax tree types), the reference matcher has a result.
+`isInstance` therefore decides "is a syntactic instance of the pattern". -/
+theorem reference_accepts_every_instance (sc : Schema) (mt : Meta) (σ : Subst) (hσ : GoodSubst sc σ) (p g : V)
+    (hi : Inst mt σ p g) (wg : wtv sc g = true) (ng : nf g = true) : isInstance mt p g Data.empty = true := by
+  obtain ⟨d', hm, _⟩ := allV_complete sc mt σ hσ p g hi wg ng Data.empty (by intro n v h; simp [Data.lookMv, Data.empty] at h)
+  unfold isInstance
+  cases h : allV mt p g Data.empty with
+  | nil => rw [h] at hm; simp at hm
+  | cons _ _ => rfl
+
+/-- what the engine's matcher accepts, the reference matcher accepts -/
+theorem engine_within_reference (mt : Meta) (p g : V) (d d' : Data) (h : matchV mt p g d = some d') :
+    d' ∈ allV mt p g d := matchV_sub mt p g d d' h
+
+/-- **Every instance is matched** (patterns without elisions, repeated metavariables included): code that is
+an instance under a substitution of well-typed code is accepted by the engine's matcher — a later
+occurrence of a metavariable is compared with the first one, and on well-typed trees "matches the same
+code" is Euclidean (`eqvM_euclid`). -/
+theorem elision_free_instance_is_matched (sc : Schema) (mt : Meta) (σ : Subst) (hσ : GoodSubst sc σ) (p g : V)
+    (hp : dotsFree p = true) (hi : Inst mt σ p g) (wg : wtv sc g = true) (ng : nf g = true) :
+    ∃ d', matchV mt p g Data.empty = some d' := by
+  obtain ⟨d', h, _⟩ := matchV_complete_nodots sc mt σ hσ p g hp hi wg ng Data.empty
+    (by intro n v h; simp [Data.lookMv, Data.empty] at h)
+  exact ⟨d', h⟩
+
+/-- at file level: an expression or declaration pattern without elisions misses no node of the file -/
+theorem elision_free_pattern_misses_nothing (c : Change) (f : FileM) (hk : (c.minus.kind == "stmts") = false)
+    (hp : dotsFree c.minus.node = true) : missedNodes c f = [] :=
+  no_elision_nothing_missed c f hk hp
+
+/-! A concrete instance that the engine's matcher misses (known finding F22): the pattern
+`foo(bar(..., x, ...), x)` and the code `foo(bar(1, 2), 2)`.  The inner list binds `x` to the first
+argument of `bar`; that choice is never reconsidered when the outer `x` turns out to be `2`. -/
+
+def ident (s : String) : V := .iface "ast.Expr" (.ptr "ast.Ident" 0 [.pos true 0, .str s, .nilP "ast.Object"])
+def lit (s : String) : V := .iface "ast.Expr" (.ptr "ast.BasicLit" 0 [.pos true 0, .int 5, .str s])
+def call (f : V) (args : List V) : V :=
+  .iface "ast.Expr" (.ptr "ast.CallExpr" 0 [f, .pos true 0, .slice "ast.Expr" args, .pos false 0, .pos true 0])
+def dots (k : Nat) : V := .iface "ast.Expr" (.ptr "pgo.Dots" 0 [.nilI "ast.Expr", .pos true k])
+
+def f22Meta : Meta := [("x", .expr)]
+def f22Pattern : V := call (ident "foo") [call (ident "bar") [dots 1, ident "x", dots 2], ident "x"]
+def f22Code : V := call (ident "foo") [call (ident "bar") [lit "1", lit "2"], lit "2"]
+
+/-- the property's converse fails on this input: it is an instance (the reference matcher accepts it, and
+by `reference_only_instances` whatever it accepts is an instance) but the engine's matcher rejects it -/
+theorem nested_elision_instance_missed :
+    isInstance f22Meta f22Pattern f22Code Data.empty = true ∧ matchV f22Meta f22Pattern f22Code Data.empty = none := by
+  constructor <;> decide +kernel
+
+/-- the same code with `1` as last argument is matched: the first choice happens to fit -/
+example : (matchV f22Meta f22Pattern (call (ident "foo") [call (ident "bar") [lit "1", lit "2"], lit "1"]) Data.empty).isSome = true := by
+  decide +kernel
 
 /-! ### code that differs from the pattern in a token is not an instance -/
 
